@@ -7,4 +7,10 @@ import NdnProofs.Props.C13
 #print axioms Ndn.C13.check_terminates
 #print axioms Ndn.C13.match_no_exception
 #print axioms Ndn.C13.sign_cycle_rejected
+#print axioms Ndn.C13.compile_rejects_bad_reference
+#print axioms Ndn.C13.compile_rejects_reference_cycle
+#print axioms Ndn.C13.compile_rejects_bad_constraint
+#print axioms Ndn.C13.compile_structure_sane
+#print axioms Ndn.C13.compile_accepted_iff
+#print axioms Ndn.C13.compile_sane
 #print axioms Ndn.C13.compile_sane_partial
